@@ -1,1 +1,274 @@
-import AnyioModel.Cache.Lru
+/-
+C20  Async lru_cache: right value, single flight, bounded retention.
+
+Property theorems only.  Model: `AnyioModel.Cache.Lru` (functools.py `AsyncLRUCacheWrapper.__call__`
+with the F3 repair, plus the per-placeholder `Lock`s); invariant and helper lemmas:
+`AnyioModel.Cache.{LruDict, LruProofs, LruStep, LruInv, LruOut, LruEvict}`.  Every statement
+quantifies over all reachable states, i.e. over all finite event lists: any number of callers and
+keys, any `maxsize` (`none`, 0, 1, ...), any `ttl`, `always_checkpoint` on or off, any interleaving
+of call segments with completions / failures of the wrapped function, cancellations (`fc`, `mc`,
+`sc`) and clock ticks.
+-/
+import AnyioModel.Cache.LruEvict
+
+namespace AnyioModel.Cache.Lru
+
+theorem C20_invariant {s : State} (h : Reach s) : Inv s := inv_reach h
+
+/-- the call is inside the wrapped function, holding its key's lock -/
+def inflight (p : Pc) : Prop := p = .computing ∨ p = .computingX
+
+/-- At most one call per key is inside the wrapped function (cached mode, i.e. `maxsize ≠ 0`;
+with `maxsize = 0` calls sit in `bypass`, which promises no caching at all). -/
+theorem C20_single_flight {s : State} (h : Reach s) {c1 c2 : Nat}
+    (h1 : inflight (s.pc c1)) (h2 : inflight (s.pc c2)) (hk : s.key c1 = s.key c2) : c1 = c2 := by
+  have hi := C20_invariant h
+  have e1 := hi.computing_entry c1 h1
+  have e2 := hi.computing_entry c2 h2
+  rw [hk, e2] at e1
+  simp only [Option.some.injEq, Entry.placeholder.injEq] at e1
+  have o1 := hi.owning_owner c1 (by unfold inflight at h1; unfold owning; grind)
+  have o2 := hi.owning_owner c2 (by unfold inflight at h2; unfold owning; grind)
+  rw [← e1, o2] at o1
+  exact (Option.some.inj o1).symm
+
+/-- While a call computes, the dict holds *its* placeholder under its key: nobody evicts,
+replaces or overwrites the entry of a computation in flight (the F3 signature). -/
+theorem C20_inflight_placeholder {s : State} (h : Reach s) {c : Nat} (hc : inflight (s.pc c)) :
+    dget (s.key c) s.dict = some (.placeholder (s.lk c)) ∧ s.owner (s.lk c) = some c :=
+  ⟨(C20_invariant h).computing_entry c hc,
+   (C20_invariant h).owning_owner c (by unfold inflight at hc; unfold owning; grind)⟩
+
+/-- Retained completed results never exceed `maxsize`, at every segment boundary, and
+`cache_info().currsize` is exactly their number. -/
+theorem C20_bound {s : State} (h : Reach s) :
+    s.currsize = ncompleted s.dict ∧ ∀ m, s.cfg.maxsize = some m → ncompleted s.dict ≤ m :=
+  ⟨(C20_invariant h).currsize_eq, (C20_invariant h).bound⟩
+
+/-- A call only ever queues on a lock created for its own key; everybody else on that lock has
+the same key, and the lock is held by a live call for that key (which is computing or about to
+run): calls for different keys never wait for one another. -/
+theorem C20_independent_keys {s : State} (h : Reach s) {c : Nat} (hw : s.pc c = .waiting) :
+    s.lockKey (s.lk c) = s.key c ∧
+    (∀ u b, (u, b) ∈ s.waiters (s.lk c) → s.key u = s.key c) ∧
+    ∃ u, s.owner (s.lk c) = some u ∧ s.key u = s.key c ∧ owning (s.pc u) := by
+  have hi := C20_invariant h
+  have hc := hi.lock_key c (by simp [lockpc, hw])
+  refine ⟨hc.1, ?_, ?_⟩
+  · intro u b hm
+    have hu := hi.waiter_pc _ u b hm
+    have := hi.lock_key u (by unfold lockpc; grind)
+    rw [hu.1] at this
+    rw [← this.1, hc.1]
+  · have hq := hi.waiting_queued c hw
+    cases ho : s.owner (s.lk c) with
+    | none => rw [hi.free_no_waiters _ ho] at hq; simp at hq
+    | some u =>
+      rcases hi.owner_owning _ u ho with hx | hx
+      · simp at hx
+      · have := hi.lock_key u (Or.inl hx.2)
+        rw [hx.1] at this
+        exact ⟨u, rfl, by rw [← this.1, hc.1], hx.2⟩
+
+/-- No internal error ever reaches a caller: every `move_to_end` finds its key, `Lock.acquire`
+is never re-entered by the owner, every `Lock.release` is done by the owner. -/
+theorem C20_no_internal_error {s s' : State} {e : Ev} {o : Out} (h : Reach s)
+    (hs : step s e = some (s', o)) : o ≠ .internalError := by
+  intro ho
+  rcases step_spec (C20_invariant h) hs with h1 | ⟨_, _, h1, _⟩ | ⟨_, _, h1, _⟩ | ⟨_, _, _, h1, _⟩
+  · rcases h1 with h1 | h1 | h1 <;> simp [ho] at h1
+  all_goals simp [ho] at h1
+
+/-- ... and the eviction loop finds an entry whenever the cache is over capacity: the lookup
+`firstCompleted` of `storeStep` cannot come back empty-handed. -/
+theorem C20_no_internal_error_evict {s : State} (h : Reach s) {c : Nat} {v : Val} {m : Nat}
+    (hc : s.pc c = .computing) (hm : s.cfg.maxsize = some m) (hover : m < s.currsize + 1) :
+    ∃ k', firstCompleted (storedDict s c v) = some k' := by
+  have hi := C20_invariant h
+  cases hf : firstCompleted (storedDict s c v) with
+  | some k' => exact ⟨k', rfl⟩
+  | none =>
+    have := firstCompleted_none hf
+    have h2 := ncompleted_storedDict hi hc v
+    omega
+
+/-- A returned value is the wrapped function's result for an equal key. -/
+theorem C20_value {s s' : State} {e : Ev} {v : Val} (h : Reach s)
+    (hs : step s e = some (s', .ret v)) :
+    ∃ c, e.task = some c ∧ (s'.key c, v) ∈ s'.produced := by
+  have hi := C20_invariant h
+  have hi' := C20_invariant (Reachable.next h hs)
+  rcases step_spec hi hs with h1 | ⟨_, _, h1, _⟩ | ⟨_, _, h1, _⟩ | ⟨c, w, ht, h1, hw⟩
+  · rcases h1 with h1 | h1 | h1 <;> simp at h1
+  · simp at h1
+  · simp at h1
+  · simp only [Out.ret.injEq] at h1; subst h1
+    refine ⟨c, ht, ?_⟩
+    rcases hw with hw | ⟨he, hpc, hv⟩ | ⟨x, hg, _, _⟩
+    · subst hw
+      simp only [step] at hs
+      split at hs
+      · cases hs; simp
+      · rename_i hpc
+        simp only [Option.some.injEq] at hs
+        have := store_out hi hpc v
+        rw [hs] at this
+        simp only at this
+        rw [this.2.1]; exact this.2.2
+      · contradiction
+    · subst he
+      have := hi.hv_produced c (Or.inl hpc)
+      simp only [step, hpc, Option.some.injEq, Prod.mk.injEq] at hs
+      rw [← hs.1, hv]; exact this
+    · have hp := (hi.value_last _ _ _ hg).2
+      exact produced_mono hs hp
+
+/-- A value served from the cache is the entry currently retained under the call's key, which is
+the result of the most recent successful execution for that key; on the lookup at the top of the
+call (first segment or restart) it is moreover unexpired.  Evicted or expired entries are not in
+the dict any more, so they can never be served. -/
+theorem C20_value_hit {s s' : State} {e : Ev} {v : Val} {c : Nat} (h : Reach s)
+    (hs : step s e = some (s', .ret v)) (ht : e.task = some c)
+    (hown : e ≠ .wrappedReturns c v) (hnow : s.pc c ≠ .hitYield) :
+    ∃ x, dget (s'.key c) s.dict = some (.value v x) ∧ s.last (s'.key c) = some v ∧
+      (fastPath s e c → expired x s.now = false) := by
+  have hi := C20_invariant h
+  rcases step_spec hi hs with h1 | ⟨_, _, h1, _⟩ | ⟨_, _, h1, _⟩ | ⟨c', w, ht', h1, hw⟩
+  · rcases h1 with h1 | h1 | h1 <;> simp at h1
+  · simp at h1
+  · simp at h1
+  · simp only [Out.ret.injEq] at h1; subst h1
+    rw [ht] at ht'; simp only [Option.some.injEq] at ht'; subst ht'
+    rcases hw with hw | ⟨_, hpc, _⟩ | ⟨x, hg, hx, _⟩
+    · exact absurd hw hown
+    · exact absurd hpc hnow
+    · exact ⟨x, hg, (hi.value_last _ _ _ hg).1, hx⟩
+
+/- TEMP-DISABLED
+/- `always_checkpoint`: the value a call carries through its `checkpoint()` was, when the hit
+was counted, the retained and unexpired entry of its key. -/
+theorem C20_value_checkpoint_hit {s s' : State} {e : Ev} {o : Out} {c : Nat} (h : Reach s)
+    (hs : step s e = some (s', o)) (h0 : s.pc c ≠ .hitYield ∧ s.pc c ≠ .hitYieldMC)
+    (h1 : s'.pc c = .hitYield) :
+    ∃ x, dget (s'.key c) s.dict = some (.value (s'.hv c) x) ∧ expired x s.now = false ∧
+      s.last (s'.key c) = some (s'.hv c) :=
+  hitYield_origin (C20_invariant h) hs h0 h1
+
+/- LRU: a completed entry leaves the dict only (a) because a call for *its own key* found it
+expired and replaced it by a placeholder, or (b) because a computation finished while the cache
+was full and the entry was the least recently used completed one (the first completed entry in
+the recency-ordered dict; everything in front of it is an in-flight placeholder). -/
+theorem C20_lru {s s' : State} {e : Ev} {o : Out} (h : Reach s)
+    (hs : step s e = some (s', o)) {k : Key} {v : Val} {x : Option Nat}
+    (hk : dget k s.dict = some (.value v x)) :
+    dget k s'.dict = some (.value v x) ∨
+    (∃ c, fastPath s e c ∧ s'.key c = k ∧ expired x s.now = true ∧
+      ∃ L, dget k s'.dict = some (.placeholder L)) ∨
+    (∃ c w m, e = .wrappedReturns c w ∧ s.pc c = .computing ∧ s.cfg.maxsize = some m ∧
+      m < s.currsize + 1 ∧ dget k s'.dict = none ∧ firstCompleted s.dict = some k) :=
+  dict_change (C20_invariant h) hs hk
+
+TEMP-END -/
+/-- ... and a use (hit or store) makes the key the most recently used one without disturbing the
+relative order of the others (`move_to_end`), so the dict order *is* the recency order. -/
+theorem C20_lru_order (k : Key) (d d' : Dict) (hm : moveToEnd? k d = some d') :
+    ∃ e, dget k d = some e ∧ d' = ddel k d ++ [(k, e)] := moveToEnd?_some hm
+
+/-- Exceptions: a call raises the wrapped function's exception exactly when its *own* execution
+raised (then the placeholder stays, `currsize` and the counters are untouched); it raises the
+cancellation exception only if a cancellation was delivered to it; nothing else is ever raised
+(`C20_no_internal_error`). -/
+theorem C20_exceptions {s s' : State} {e : Ev} {o : Out} (h : Reach s)
+    (hs : step s e = some (s', o)) :
+    (o = .raised → ∃ c, e = .wrappedRaises c ∧ (s.pc c = .computing ∨ s.pc c = .bypass) ∧
+      s'.dict = s.dict ∧ s'.currsize = s.currsize ∧ s'.hits = s.hits ∧ s'.misses = s.misses) ∧
+    (o = .cancelled → ∃ c, e = .step c ∧ cancelPending (s.pc c)) ∧
+    (∀ c, e = .wrappedRaises c → o = .raised) := by
+  have hi := C20_invariant h
+  refine ⟨?_, ?_, ?_⟩
+  · intro ho
+    rcases step_spec hi hs with h1 | h1 | ⟨_, _, h1, _⟩ | ⟨_, _, _, h1, _⟩
+    · rcases h1 with h1 | h1 | h1 <;> simp [ho] at h1
+    · obtain ⟨c, he, _, hr⟩ := h1; exact ⟨c, he, hr⟩
+    · simp [ho] at h1
+    · simp [ho] at h1
+  · intro ho
+    rcases step_spec hi hs with h1 | ⟨_, _, h1, _⟩ | h1 | ⟨_, _, _, h1, _⟩
+    · rcases h1 with h1 | h1 | h1 <;> simp [ho] at h1
+    · simp [ho] at h1
+    · obtain ⟨c, he, _, hr⟩ := h1; exact ⟨c, he, hr⟩
+    · simp [ho] at h1
+  · intro c he
+    subst he
+    simp only [step] at hs
+    split at hs
+    · cases hs; rfl
+    · rename_i hpc
+      simp only [Option.some.injEq] at hs
+      have ha := abort_out hi (c := c) (by simp [owning, hpc]) .raised
+      rw [hs] at ha; exact ha.1
+    · contradiction
+
+/-- A failed execution hands the lock to the next live waiter, which will run the function
+itself: a queued caller is never failed on behalf of somebody else's execution (history B). -/
+theorem C20_failure_passes_lock {s s' : State} {c : Nat} {o : Out} (h : Reach s)
+    (hs : step s (.wrappedRaises c) = some (s', o)) (hc : s.pc c = .computing) :
+    s' = rel { s with pc := upd s.pc c .idle } (s.lk c) := by
+  have ho := (C20_invariant h).owning_owner c (by simp [owning, hc])
+  simp only [step, hc, abortStep, ho, ne_eq, not_true_eq_false, if_false, Option.some.injEq,
+    Prod.mk.injEq] at hs
+  exact hs.1.symm
+
+/-! ### non-vacuity: the three F3 histories, and ttl / always_checkpoint runs -/
+
+def cfg1 : Cfg := { maxsize := some 1, ttl := none, ac := false }
+
+def view (s : State) :=
+  (s.dict, s.hits, s.misses, s.currsize)
+
+/-- A: f(1) in flight while f(2) completes with maxsize = 1: the placeholder of key 1 survives,
+then key 1's completion evicts key 2 (the least recently used *completed* entry) -/
+example :
+    (runFrom step (init cfg1)
+      [.call 0 1 false, .call 1 2 false, .wrappedReturns 1 20]).map view =
+    some ([(1, .placeholder 0), (2, .value 20 none)], 0, 2, 1) := by decide
+
+example :
+    (runFrom step (init cfg1)
+      [.call 0 1 false, .call 1 2 false, .wrappedReturns 1 20, .wrappedReturns 0 10]).map view =
+    some ([(1, .value 10 none)], 0, 2, 1) := by decide
+
+/-- B: a waiter queued on key 1's lock while f(1) fails (f(2) in flight): the waiter is granted
+the lock, finds the placeholder still there and computes itself -/
+example :
+    (traceFrom step (init cfg1)
+      [.call 0 1 false, .call 1 1 false, .call 2 2 false, .wrappedRaises 0, .step 1,
+       .wrappedReturns 1 11]).map (fun r => (view r.1, r.2)) =
+    some (([(2, .placeholder 1), (1, .value 11 none)], 0, 3, 1),
+      [.susp, .susp, .susp, .raised, .susp, .ret 11]) := by decide
+
+/-- C: f(1) called again while in flight: the second caller queues (no second execution); when
+the result was evicted before it runs, it starts over -/
+example :
+    (traceFrom step (init cfg1)
+      [.call 0 1 false, .call 1 2 false, .call 2 1 false, .wrappedReturns 0 10,
+       .wrappedReturns 1 20, .step 2, .step 2]).map (fun r => (view r.1, r.2)) =
+    some (([(2, .value 20 none), (1, .placeholder 2)], 0, 3, 1),
+      [.susp, .susp, .susp, .ret 10, .ret 20, .cont, .susp]) := by decide
+
+example :
+    (runFrom step (init cfg1)
+      [.call 0 1 false, .call 1 2 false, .call 2 1 false, .wrappedReturns 0 10,
+       .wrappedReturns 1 20, .step 2, .step 2]).map (fun s => (s.pc 2, s.pc 0, s.pc 1)) =
+    some (.computing, .idle, .idle) := by decide
+
+/-- ttl: an expired entry is replaced by a placeholder and recomputed; always_checkpoint: a hit
+suspends once -/
+example :
+    (traceFrom step (init { maxsize := some 2, ttl := some 3, ac := true })
+      [.call 0 1 false, .step 0, .wrappedReturns 0 10, .tick 2, .call 1 1 false, .step 1, .tick 1,
+       .call 2 1 false, .step 2]).map (fun r => (view r.1, r.2)) =
+    some (([(1, .placeholder 1)], 1, 2, 0),
+      [.susp, .susp, .ret 10, .env, .susp, .ret 10, .env, .susp, .susp]) := by decide
+
+end AnyioModel.Cache.Lru
